@@ -1,7 +1,7 @@
 (* C05  Chip moves act by the Laplacian, commute, and conserve chips over any history. *)
 From Coq Require Import ZArith List Bool Permutation.
 Import ListNotations.
-From CF Require Import ZSum ListAux Defs Core Machines GraphLink MovesLink PyDict ImpRep TranslatedImpCFDivisor ImpLinkDiv.
+From CF Require Import ZSum ListAux Defs Core Machines GraphLink MovesLink PyDict ImpRep TranslatedImpCFDivisor ImpLinkDiv TranslatedImpCFConfigMoves ImpLinkConfigMoves.
 Open Scope Z_scope.
 
 (* a lending move at v: v loses its valence, each neighbour gains the multiplicity of the shared edge ( = minus the v-th Laplacian column) *)
@@ -75,6 +75,22 @@ Theorem C05_source_is_effective_get_degree : forall g dd D, rep_div (nv g) dd D 
   CFDivisor_is_effective dd = is_effective_b g D /\ forall v, CFDivisor_get_degree dd v = if inb g v then PyOk (nthZ D v) else PyExn tt.
 Proof. intros g dd D H. split; [apply is_effective_refines; exact H|intros v; apply get_degree_refines; exact H]. Qed.
 Print Assumptions C05_source_is_effective_get_degree.
+(* the configuration wrappers CFConfig.set_fire / lending_move / borrowing_move, translated from the current source (they delegate to the translated
+   CFDivisor methods): set_fire refuses the sink and everything outside V - {q} before anything is written, otherwise the wrappers are the divisor moves
+   (C05_config_wrapper). rep_vtilde n q vt: the set v_tilde_vertices is V - {q} *)
+Theorem C05_source_config_wrappers : forall g, wfb g = true -> forall gg, rep_graph gg g -> forall q vt, rep_vtilde (nv g) q vt -> forall s dd, rep_div (nv g) dd (degs s) ->
+  (forall (so : list nat -> list nat) U, (forall l, Permutation (so l) l) ->
+     match CFConfigMoves_set_fire q vt gg dd so U with
+     | PyExn st => cstep g q s (MFire U) = Err /\ st = dd
+     | PyOk dd' => exists s', cstep g q s (MFire U) = Ok s' /\ rep_div (nv g) dd' (degs s') /\ total s' = total s end) /\
+  (forall v, match CFConfigMoves_lending_move gg dd v with
+     | PyExn st => cstep g q s (MLend v) = Err /\ st = dd | PyOk dd' => exists s', cstep g q s (MLend v) = Ok s' /\ rep_div (nv g) dd' (degs s') end /\
+     match CFConfigMoves_borrowing_move gg dd v with
+     | PyExn st => cstep g q s (MBorrow v) = Err /\ st = dd | PyOk dd' => exists s', cstep g q s (MBorrow v) = Ok s' /\ rep_div (nv g) dd' (degs s') end).
+Proof. intros g Hwf gg Hgg q vt Hvt s dd HR. split.
+  - intros so U Hso. apply (config_set_fire_refines g Hwf gg Hgg q vt Hvt s dd so U HR Hso).
+  - intros v. apply (config_lending_borrowing_refines g Hwf gg Hgg q s dd v HR). Qed.
+Print Assumptions C05_source_config_wrappers.
 (* every model state has such dictionaries: the statements above are not vacuous *)
 Theorem C05_source_states_representable : forall g D, wfb g = true -> rep_graph (dict_of_graph g) g /\ rep_div (length D) (dict_of_div D) D.
 Proof. intros g D H. split; [apply rep_graph_of; exact H|apply rep_div_of]. Qed.
